@@ -46,9 +46,10 @@ for be in BACKS:
             dict(name='REF-found', pat='self -> m_found = true ;', rep='* self -> m_found = true ;', min=1, max=1),
             dict(name='BIND-pf', pat='execute_return ( library_sm :: * pf ) $$A = & library_sm :: process_event_internal ;', rep='', min=1, max=1),
             dict(name='CONT-push', pat='self -> m_fsm -> m_deferred_events_queue . m_deferred_events_queue . push_back (', rep='kdq_push_back ( self -> m_fsm ,', min=1, max=1),
-            dict(name='BIND', pat='bind ( pf , self -> m_fsm , any_cast ( Event , self -> m_event ) ,', rep='mk_call ( self -> m_fsm , any_cast_to ( EventT , self -> m_event ) ,', min=1, max=1),
+            dict(name='BIND', pat='bind ( pf ,', rep='mk_call (', min=0, max=1),
+            dict(name='TCALL-any_cast', pat='any_cast ( Event , self -> m_event )', rep='any_cast_to ( EventT , self -> m_event )', min=0),
             dict(name='member-seq', pat='self -> m_fsm -> m_deferred_events_queue . m_cur_seq', rep='g_cur_seq', min=1, max=1)]),
-        replay=['kleene']))
+        compose='const event_t ev = type_carrier(EventT);   /* the element fusion::for_each hands over: a default-constructed Event */\n@0', replay=['kleene']))
     UNITS.append(Unit(be + '.defer_event.kleene', ['C18', 'C05', 'C06', 'C13'], be, Part(SM, [], 'defer_event ( Event const & e )', nth=1),
         'void defer_event_kleene(fsm_t* self, event_t e)', 'kleene.spec.h',
         xform=back_xform([], refparams=(), members=['m_states'], methods=['no_transition'], rewrites=[
